@@ -17,6 +17,7 @@
          0.5.10 SelectIndex that is stored in word units).
    These are composed by the main development. *)
 From Slim Require Import Base Legacy LegacyProofs.
+From Slim Require Base Keys KeysProofs Model BuildProofs QueryProofs OrderProofs SearchProofs LegacyCompose.
 Open Scope Z_scope.
 
 (* 1. before000512InnerPrefixTobitstr on one element: for EVERY bit string the
@@ -141,3 +142,50 @@ Example ex_leaf_fixture :
   (do va <- fix_leaf [10;0;0;0; 7;0;0;0; 0;0;0;0] 4; vlen_get va 3) = Err (EPanic 632) /\
   fix_leaf [10;0;0;0] 0 = Err (EPanic 631).
 Proof. vm_compute. repeat split; reflexivity. Qed.
+
+(* ------------------------------------------------------------------------------------------
+   Composition with the trie theorems (main development).  The correspondence of this check
+   establishes, node by node through the implementation's own getNode, that a trie loaded
+   from a three-array stream (0.5.0-0.5.9) is [Model.build_gen false o keys vals] with
+   o = (dedup false, no prefixes) - the conversion runs the creator with isBig = false - and
+   that a trie loaded from a 0.5.10/0.5.11 stream is [Model.build_gen true o keys vals] with the
+   stream's prefix options and dedup false.  On EVERY such trie every indexed key is answered
+   exactly: Get and RangeGet return its value, Search returns the values of the previous key,
+   the key and the next key (nil at the ends).  [b] is the initial isBig flag. *)
+Theorem C06_loaded_trie_answers_partial :
+  forall (b : bool) (o : Model.opts) (keys : list Keys.key) (vs : list (list Byte.byte)) (T : Model.trie) (i : nat) (k : Keys.key),
+    Model.o_dedup o = false -> length vs = length keys ->
+    Model.build_gen b o keys (Some vs) = Base.Ok T -> nth_error keys i = Some k ->
+    (exists id, Model.getid T k = Some id) /\
+    (exists v, Model.get T k = Base.Ok (Model.Found v) /\ QueryProofs.val_bytes v = nth i vs nil) /\
+    (exists v, Model.rangeget T k = Base.Ok (Model.Found v) /\ QueryProofs.val_bytes v = nth i vs nil) /\
+    Model.search T k =
+      Base.Ok (match i with O => None | S j => Some (SearchProofs.stored T (Some vs) j) end,
+               Some (SearchProofs.stored T (Some vs) i),
+               if Nat.ltb (S i) (length keys) then Some (SearchProofs.stored T (Some vs) (S i)) else None).
+Proof. exact LegacyCompose.legacy_answers. Qed.
+Print Assumptions C06_loaded_trie_answers_partial.
+
+(* full-prefix streams (0.5.10 allpref): exact answers for every query string *)
+Theorem C06_allpref_exact_partial :
+  forall (b : bool) (o : Model.opts) keys vals T q,
+    Model.build_gen b o keys vals = Base.Ok T -> keys <> nil ->
+    Model.o_inner o = true -> Model.o_leaf o = true ->
+    let root := BuildProofs.root_subset o keys vals in
+    let sv := fun x => SearchProofs.stored T vals (Model.e_idx x) in
+    exists Bl Ar,
+      Forall (fun x => KeysProofs.key_lt (Model.e_key x) q) Bl /\ Forall (fun x => KeysProofs.key_lt q (Model.e_key x)) Ar /\
+      ((OrderProofs.kept root = Bl ++ Ar /\ Model.getid T q = None /\ Model.get T q = Base.Ok Model.NotFound /\
+        Model.search T q = Base.Ok (option_map sv (Base.last_opt Bl), None, option_map sv (Base.hd_opt Ar)) /\
+        Model.rangeget T q = Base.Ok (match Base.last_opt Bl with Some x => Model.Found (sv x) | None => Model.NotFound end))
+       \/
+       (exists x, OrderProofs.kept root = Bl ++ x :: Ar /\ Model.e_key x = q /\ (exists id, Model.getid T q = Some id) /\
+                  Model.get T q = Base.Ok (Model.Found (sv x)) /\
+                  Model.search T q = Base.Ok (option_map sv (Base.last_opt Bl), Some (sv x), option_map sv (Base.hd_opt Ar)) /\
+                  Model.rangeget T q = Base.Ok (Model.Found (sv x)))).
+Proof. exact SearchProofs.complete_exact_gen. Qed.
+Print Assumptions C06_allpref_exact_partial.
+(* What remains outside the theorems (hence _partial): that the loader's conversion
+   (before000510ToNewChildrenArray + creator.build, resp. the 0.5.10 prefix/leaf fix-ups)
+   yields exactly that trie is established by the node-view correspondence on generated
+   streams of all 12 layout variants and on the 97 fixtures, not proved. *)
